@@ -551,11 +551,13 @@ class Interp(BuiltinsMixin, StmtMixin, DictMixin):
         return obj
 
     def ev_ListComp(self, node, st, fr):
-        if len(node.generators) != 1 or node.generators[0].ifs:
+        if len(node.generators) != 1:
             raise Unsupported("list comprehension shape")
         comp = node.generators[0]
         src = self.ev(comp.iter, st, fr)
         n, elem, conc = self.iter_desc(src, st, fr)
+        if comp.ifs:
+            return self.filtered_comp(node, comp, n, elem, conc, st, fr)
         self.uni.note_assumption(
             "list-comprehension element expressions are evaluated as pure, "
             "exception-free expressions")
@@ -579,6 +581,49 @@ class Interp(BuiltinsMixin, StmtMixin, DictMixin):
         self.set_list(lst, st, arr, n)
         st.assume(z3.ForAll([i], z3.Implies(z3.And(0 <= i, i < n),
                                             arr[i] == self.to_z3(v))))
+        return lst
+
+    def filtered_comp(self, node, comp, n, elem, conc, st, fr):
+        """[x for x in xs if c(x)] (element expression = the loop variable):
+        a fresh list, every element of which is an element of xs satisfying
+        c, that contains every such element (so it is empty iff none
+        does).  Order and multiplicity are not modelled."""
+        if not (isinstance(node.elt, ast.Name) and
+                isinstance(comp.target, ast.Name) and
+                node.elt.id == comp.target.id) or conc is not None:
+            raise Unsupported("list comprehension shape")
+        self.uni.note_assumption(
+            "a filtering list comprehension [x for x in xs if c(x)] is a "
+            "fresh list of exactly the elements of xs satisfying c (order "
+            "and multiplicity not modelled); c is evaluated as a pure, "
+            "exception-free expression")
+
+        def cond(x):
+            env = dict(fr.env)
+            self.assign_env(comp.target, x, env)
+            sub = Frame(fr.func, fr.cls, fr.contract, env=env, spec=True)
+            sub.old, sub.self_val = fr.old, fr.self_val
+            c = [self.truth(self.ev(g, st, sub), st) for g in comp.ifs]
+            return z3.And(c) if len(c) > 1 else c[0]
+        i, q = z3.Int(fresh_name("fc")), z3.Int(fresh_name("fq"))
+        v0 = elem(i)
+        tag = v0.cls if isinstance(v0, VRef) else v0.tag
+        lst = self.alloc(st, "list", tag or "ref", "fcomp")
+        arr = fresh("fcomp_items", z3.ArraySort(INT, self.to_z3(v0).sort()))
+        m = fresh("fcomp_len", INT)
+        self.set_list(lst, st, arr, m)
+        idx = z3.Function(fresh_name("fcomp_src"), INT, INT)
+        pos = z3.Function(fresh_name("fcomp_pos"), INT, INT)
+        st.assume(m >= 0)
+        st.assume(z3.ForAll([i], z3.Implies(
+            z3.And(0 <= i, i < m),
+            z3.And(0 <= idx(i), idx(i) < n,
+                   arr[i] == self.to_z3(elem(idx(i))), cond(elem(idx(i))))),
+            patterns=[arr[i]]))
+        st.assume(z3.ForAll([q], z3.Implies(
+            z3.And(0 <= q, q < n, cond(elem(q))),
+            z3.And(0 <= pos(q), pos(q) < m,
+                   arr[pos(q)] == self.to_z3(elem(q))))))
         return lst
 
     def ev_JoinedStr(self, node, st, fr):
